@@ -561,6 +561,7 @@ def run(chk):
         for clause, msg in new_bad[:2]:
             found.append((f"C18 violated ({clause}): {msg}",
                           {"stream": "report", "clause": clause, "tjp": c["tjp"], "spec": c["spec"], "titles": c["titles"],
+                           "scenario": c.get("scenario", 0),
                            "corpus": c.get("corpus"), "impl_round0": {k: r["rounds"][0][k] for k in ("header", "rows", "body", "jdata", "csv")},
                            "tasks": r["data"]["tasks"], "ledger": r["data"]["ledger"], "resources": r["data"]["resources"]}))
         # coverage accounting
@@ -642,13 +643,19 @@ def _canon_tables(s):
         return s
 
 
+def scenario_of(tjp):
+    """index of the scenario the report `rep` is about (its `scenarios` attribute names `delayed` = 1 in the generated cases)"""
+    return 1 if re.search(r"^\s*scenarios\s+delayed\b", tjp, flags=re.M) else 0
+
+
 def replay(chk, rec):
     """re-run one recorded case: `./check C18 --replay replays/C18-....json`"""
     chk.obligations(THEOREM_FILES)
     if "tjp" not in rec:
         print("replay file has no report case (it names a broken obligation/stream): " + json.dumps(rec.get("broken", ""))[:500])
         return chk.finish()
-    case = {"tjp": rec["tjp"], "spec": rec["spec"], "titles": rec.get("titles") or [None] * len(rec["spec"]["columns"])}
+    case = {"tjp": rec["tjp"], "spec": rec["spec"], "titles": rec.get("titles") or [None] * len(rec["spec"]["columns"]),
+            "scenario": rec.get("scenario", scenario_of(rec["tjp"]))}
     _d, _m, io_ = chk.differential("reptables", ["reptables"], canon=_canon_tables)
     known_attrs = {k for k, _ in json.loads(io_[0])["defs"]}
     results, models = run_cases(chk, [case], lambda i: "native")
